@@ -393,6 +393,16 @@ class Act(object):
 
             if parts and parts[0]:  # not absolute so do relative substitutions
                 if parts[0] == 'framer':  #  framer relative addressing
+                    # each of framer, frame, actor must be followed by a name part
+                    if (len(parts) < 2 or
+                            (parts[2:3] == ['frame'] and
+                                (len(parts) < 4 or
+                                 (parts[4:5] == ['actor'] and len(parts) < 6))) or
+                            (parts[2:3] == ['actor'] and len(parts) < 4)):
+                        raise excepting.ResolveError("ResolveError: Incomplete relative"
+                            " pathname '{0}', missing name after framer, frame"
+                            " or actor.".format('.'.join(parts)), ipath, self,
+                            self.human, self.count)
                     if parts[1] == 'me': # current framer
                         parts[1] = self.frame.framer.name
                     elif parts[1] == 'main': # current main framer
